@@ -404,11 +404,13 @@ def check_string_format(
         on_error(node, err, error_code=ErrorCode.bad_format_string)
     for err in fs.accept(args, ctx):
         on_error(node, err, error_code=ErrorCode.bad_format_string)
-    return TypedValue(type(format_str)), maybe_replace_with_fstring(fs, args_node)
+    return TypedValue(type(format_str)), maybe_replace_with_fstring(
+        fs, args_node, args
+    )
 
 
 def maybe_replace_with_fstring(
-    fs: PercentFormatString, args_node: ast.expr
+    fs: PercentFormatString, args_node: ast.expr, args: Optional[Value] = None
 ) -> Optional[ast.expr]:
     """If appropriate, emits an error to replace this % format with an f-string."""
     # there are no bytes f-strings
@@ -444,6 +446,10 @@ def maybe_replace_with_fstring(
         substitutions = args_node.elts
     elif len(fs.specifiers) == 1:
         if not _is_simple_enough(args_node):
+            return None
+        # "%s" % x formats the single element of x if x is a tuple, but f"{x}"
+        # formats the tuple itself.
+        if args is not None and args.is_type(tuple):
             return None
         substitutions = [args_node]
     else:
